@@ -573,6 +573,15 @@ def _sort_stable(vals, v):
     return cases
 
 
+@adapter("toml_key")
+def _toml_key(vals, v):
+    """probe: TOML documents whose keys contain non-ASCII letters / digits must be accepted by tomllib and decode to the same mapping"""
+    cases = []
+    for key in ("caf\u00e9", "\u540d\u524d", "\u00fc", "\u0663", "a\u00b2", "\u00e9t\u00e9"):
+        cases.append({"source": 'std.manifestTomlEx({ a: { %s: 1 } }, "  ")' % json.dumps(key), "args": ["-S"], "oracle": {"oracle": "toml_value_equals", "expected": {key: 1}}})
+    return cases
+
+
 @adapter("crop")
 def _crop(vals, v):
     """every small crop size (and the counterexample's, clipped) on a run-time error with a 12-frame trace"""
